@@ -265,7 +265,8 @@ class Gen:
                 tgt = t.split("/")[-1] if r.random() < 0.6 else "/T/" + t
             elif v < 0.8 and len(dirs) > 1:
                 t = r.choice([x for x in dirs if x])
-                tgt = "/T/" + t
+                # absolute, or relative to the link's own directory (then the watch is filed under the target's real path)
+                tgt = "/T/" + t if r.random() < 0.5 else os.path.relpath(t, d or ".")
             else:
                 tgt = "nowhere"
             self.emit("fs symlink %s %s" % (tgt, p))
@@ -358,7 +359,10 @@ class Gen:
                 for w in list(self.watched):
                     self.emit("api remove " + (w if r.random() < 0.5 else canon(w)))
                 self.watched = []
-            if r.random() < 0.7:
+            wd_ = [canon(w) for w in self.watched if self.tree.get(canon(w)) == "d"]
+            if wd_ and r.random() < 0.35:
+                self.emit("racecl create %s/0n" % r.choice(wd_))
+            elif r.random() < 0.7:
                 self.emit("api close")
                 if r.random() < 0.3:
                     self.emit("api add d0")
@@ -402,6 +406,23 @@ CORPUS = [
     ("k-remove-unadded", ["fs mkdir d", "api add d", "fs create d/x", "api remove d/x"]),
     ("k-burst-rename-recreate", ["fs mkdir d", "fs create d/l", "api add d", "hold", "fs rename d/l d/c", "fs create d/l", "release"]),
     ("k-fifo-replaces-symlinked-dir", ["fs mkdir d", "fs symlink /T/d l", "api add l", "fs mkfifo p", "fs rename p l", "fs create d/x"]),
+    # scenario templates (clean on the checked-in tree): symlinked directory + its real parent, name re-use after a rename
+    # with the reader running in between, Remove / re-Add, Close racing with a directory scan
+    ("p-link-dir-then-parent", ["fs mkdir b", "fs mkdir b/dir", "fs mkdir a", "fs symlink ../b/dir a/link", "api add a/link", "api add b",
+                                "fs create b/dir/two", "fs write b/dir/two", "fs create b/x", "fs create b/dir/three", "fs unlink b/dir/two"]),
+    ("k-parent-then-link-dir", ["fs mkdir b", "fs mkdir b/dir", "fs mkdir a", "fs symlink ../b/dir a/link", "api add b", "api add a/link",
+                                "fs create b/y", "fs create b/dir/one", "fs write b/dir/one"]),
+    ("p-rename-recreate", ["fs mkdir d", "api add d", "fs create d/a", "fs rename d/a d/b", "fs create d/a", "fs write d/a",
+                           "fs mkdir d/s", "fs rename d/s d/t", "fs mkdir d/s", "fs mkdir u", "fs rename d/b u/b", "fs create d/b"]),
+    ("p-remove-readd", ["fs mkdir d", "fs create d/f", "fs create d/g", "api add d", "api remove d", "fs unlink d/f", "api add d", "fs create d/f",
+                        "fs write d/g", "api remove d", "api list"]),
+    ("p-close-racing-1", ["fs mkdir d", "fs create d/b", "fs create d/c", "fs create d/e", "fs create d/f", "fs create d/g", "fs create d/h",
+                          "api add d", "racecl create d/a", "api list"]),
+    ("p-close-racing-2", ["fs mkdir d", "fs create d/m", "fs create d/n", "fs create d/o", "fs create d/p", "fs create d/q", "fs mkdir d/r",
+                          "fs create d/s", "api add ./d", "fs create d/t", "racecl create d/0"]),
+    ("p-close-racing-3", ["fs mkdir d", "fs mkdir e", "fs create d/1", "fs create d/2", "fs create d/3", "fs create d/4", "fs create d/5",
+                          "fs create e/1", "fs create e/2", "fs create e/3", "api add d", "api add e", "fs write d/1", "racecl create e/0"]),
+    ("k-burst-rmdir-recreate", ["fs mkdir d", "api add d", "fs mkdir d/s", "hold", "fs rmdir d/s", "fs create d/s", "release"]),
     ("p-plain", ["fs mkdir d", "fs create d/pre", "api add d", "fs create d/a", "fs write d/a", "fs chmod d/a", "fs rename d/a d/b",
                  "fs unlink d/b", "fs create d/b", "fs mkdir d/s", "fs rmdir d/s", "api list", "api remove d", "api list"]),
     ("p-burst", ["fs mkdir d", "api add d", "hold", "fs create d/a", "fs create d/b", "fs create d/c", "fs unlink d/b", "release",
@@ -436,7 +457,7 @@ def run_pipeline(kqh, drv, hists, name, timeout=900):
     # commits 833aa17 / c3f1f06 instead (only for experiments with old trees)
     cfgopt = "-cfg before-fix " if os.environ.get("VERIF_KQ_CFG") == "before-fix" else ""
     rc, dout = sh("timeout %d %s %s%s" % (timeout, drv, cfgopt, op), timeout=timeout + 30)
-    res = {"obs": op, "model": [], "env": [], "spec": [], "summary": "", "diverging": set(), "error": None}
+    res = {"obs": op, "model": [], "env": [], "spec": [], "mspec": set(), "summary": "", "diverging": set(), "error": None}
     if rc != 0 and "SUMMARY" not in dout:
         res["error"] = "driver rc=%d %s" % (rc, dout[-1500:])
         return res
@@ -454,10 +475,16 @@ def run_pipeline(kqh, drv, hists, name, timeout=900):
             if m:
                 res["spec"].append({"prop": m.group(1), "hist": m.group(2), "step": int(m.group(3)), "clause": m.group(4),
                                     "detail": m.group(5), "at": m.group(6)})
-        elif l.startswith("MISMATCH MSPEC"):
-            pass
+        elif l.startswith("MSPEC "):
+            m = re.match(r"MSPEC hist=(\S+) step=(\d+) clause=(\S+) detail=\[(.*?)\]$", l)
+            if m:
+                res["mspec"].add((m.group(1), int(m.group(2)), m.group(3), m.group(4)))
         elif l.startswith("SUMMARY"):
             res["summary"] = l
+    # a violation the faithful model exhibits itself (known defects included) is "predicted"; one it does not is new,
+    # whatever ingredients its history has.  The model does not know about blocking, so reader-blocked is exempt.
+    for v in res["spec"]:
+        v["predicted"] = v["clause"] == "reader-blocked" or (v["hist"], v["step"], v["clause"], v["detail"]) in res["mspec"]
     return res
 
 
@@ -544,6 +571,9 @@ def features(steps):
 
     for s in steps:
         w = s.split()
+        if w[0] == "racecl":
+            f.add("close")
+            w = ["fs"] + w[1:]
         if w[0] == "fs" and len(w) >= 3:
             p = w[-1]
             par = os.path.dirname(p) or "."
@@ -584,6 +614,8 @@ def features(steps):
             elif w[1] in ("unlink", "rmdir"):
                 if kinds.get(p) == "l" and par in adddirs:
                     f.add("symlink-entry")
+                if holding and w[1] == "rmdir":
+                    renamed_away.add(p)      # a removed DIRECTORY is not re-scanned either (same block of readEvents)
                 kinds.pop(p, None)
                 kinds.pop(p + "@", None)
         elif w[0] == "api" and len(w) == 3:
@@ -685,7 +717,7 @@ def triage_spec(ctx, hists, res, prop, max_per_group=3, max_total=60):
     by_hist = {h[0]: h[2] for h in hists}
     groups, order = {}, []
     for m in res["spec"]:
-        if m["prop"] != prop:
+        if m["prop"] != prop or not m.get("predicted", True):
             continue
         # rough pre-classification: clause + the features of the history prefix up to the violating step
         pre = features(by_hist[m["hist"]][:m["step"]])
@@ -696,10 +728,43 @@ def triage_spec(ctx, hists, res, prop, max_per_group=3, max_total=60):
         if not any(x["hist"] == m["hist"] for x in groups[g]):
             groups[g].append(m)
     found, total = {}, 0
-    # the stored witnesses of the listed findings first (not counted against the budget), then
-    # smallest prefixes first: they minimise fastest and are the most specific
+    # 0. violations the model does not predict (the implementation has left the model AND breaks a clause): always new
+    unp, seen_u = [], set()
+    for m in sorted((m for m in res["spec"] if m["prop"] == prop and not m.get("predicted", True)), key=lambda m: m["step"]):
+        if m["clause"] not in seen_u or len([u for u in unp if u["clause"] == m["clause"]]) < 2:
+            if not any(u["hist"] == m["hist"] and u["clause"] == m["clause"] for u in unp):
+                seen_u.add(m["clause"])
+                unp.append(m)
+    for m in unp[:6]:
+        clause = m["clause"]
+        steps = by_hist[m["hist"]][:m["step"]]
+        pred = lambda x, c=clause: any(s["clause"] == c and not s.get("predicted", True) for s in x["spec"])
+        mini = ctx.minimise(steps, pred)
+        hit = None
+        # a racing Close makes the outcome depend on the select in sendEvent: re-run until the failure shows again,
+        # falling back to the history as it was found
+        for cand in [mini] * 4 + [steps] * 4:
+            lines, r = annotate(ctx, cand)
+            hit = next((s for s in r.get("spec", []) if s["clause"] == clause and not s.get("predicted", True)), None)
+            if hit is not None:
+                mini = cand
+                break
+        if hit is None:
+            continue
+        key = clause + ":not-predicted-by-model"
+        if clause == "close-releases-all":
+            key = "close-leaks-descriptors" if "vnode" in hit["detail"] else "close-leaks-kqueue-or-pipe"
+        if key not in found or len(mini) < len(found[key]["steps"]):
+            found[key] = {"clause": clause, "detail": hit["detail"], "steps": mini, "lines": lines, "from": m["hist"],
+                          "count": found.get(key, {}).get("count", 0), "unpredicted": True,
+                          "model_vs_impl": [x["field"] + " " + x["text"] for x in r.get("model", [])][:4]}
+        found[key]["count"] += 1
+    # 1. the stored witnesses of the listed findings (not counted against the budget), then
+    # 2. smallest prefixes first: they minimise fastest and are the most specific
     todo, seen_c = [], set()
     for m in res["spec"]:
+        if not m.get("predicted", True):
+            continue
         if m["prop"] == prop and m["hist"].startswith(("k-", "kq-")) and (m["hist"], m["clause"]) not in seen_c:
             seen_c.add((m["hist"], m["clause"]))
             todo.append((m, True))
@@ -744,7 +809,7 @@ WHAT = {
     "remove-of-unadded-succeeds": "Remove succeeds on a per-entry watch the user never added (documented: ErrNonExistentWatch) and silently stops the reporting for that entry",
     "entry-user-removed": "Remove of a user-added entry of a watched directory removes the one shared watch: the directory stops reporting that entry's changes and reports Create for it again",
     "reader-blocked:plain": "the reader goroutine blocks forever",
-    "rename-then-recreate-in-burst": "a name renamed away and created again before the reader runs gets no Create until the directory changes again (only NOTE_DELETE, not NOTE_RENAME, triggers the re-scan of the name)",
+    "rename-then-recreate-in-burst": "a name renamed away (or a removed directory's name) that is created again before the reader runs gets no Create until the directory changes again (only NOTE_DELETE of a non-directory triggers the re-scan of the name)",
 }
 
 
@@ -877,6 +942,12 @@ def run_check(run, pid):
     # ---- (1) specification on the implementation's observations
     found = triage_spec(ctx, hists, res, pid, max_per_group=1 if quick else 3, max_total=35 if quick else 400)
     for key, v in sorted(found.items()):
+        if v.get("unpredicted"):
+            run.violation(key, "clause %s of %s fails on the implementation (%s) and the model of the checked-in code does not show it: new behaviour"
+                          % (v["clause"], pid, v["detail"]),
+                          {"kind": "spec", "clause": v["clause"], "detail": v["detail"], "minimal_history": v["steps"], "observations": v["lines"],
+                           "model_vs_impl": v.get("model_vs_impl"), "found_in": v["from"], "how": "bin/check %s --replay <this file>" % pid})
+            continue
         run.violation(key, WHAT.get(key, "clause %s of %s fails on the implementation: %s" % (v["clause"], pid, v["detail"])),
                       {"kind": "spec", "clause": v["clause"], "detail": v["detail"], "minimal_history": v["steps"], "observations": v["lines"],
                        "found_in": v["from"], "how": "bin/check %s --replay <this file>" % pid})
